@@ -16,21 +16,37 @@ from bip_utils.substrate.scale import (SubstrateScaleBytesEncoder, SubstrateScal
 ALPHS = [Base58Alphabets.BITCOIN, Base58Alphabets.RIPPLE]
 
 MANIFEST = {
-    "text": "Coq theorems (all byte strings / all strings, unbounded) for the codecs' round trips and canonicity over "
-            "constants regenerated from the source, plus extracted-model/implementation correspondence on exhaustive "
-            "small domains and random inputs.",
-    "note": "Hash functions are oracles with a length hypothesis; Base32/CBOR delegated to stdlib/cbor2 are modelled "
-            "from their RFCs.",
-    "technique": "Coq proof (induction over radix digit lists) + generated-constant obligations + extracted-model "
-                 "differential run",
+    "text": "Coq theorems (all byte strings / all strings / all integers in range, unbounded sizes) for every codec of the "
+            "property: decode(encode(x)) = x, the encoded text is the standard one, and -- where it holds -- canonicity and "
+            "exact acceptance of the decoder (Base58, Base58Check, Monero block Base58, Bech32 ConvertBits 8<->5, Base32 with "
+            "custom alphabets and without padding, hex, IntegerUtils/BytesUtils, SS58 for all 16384 formats, SCALE uint/"
+            "compact/bytes against model decoders, CBOR indefinite-length array), over constants regenerated from the source; "
+            "plus extracted-model/implementation correspondence on exhaustive small domains, threshold values and mutated "
+            "inputs, and direct checks of the property against independent reference implementations.",
+    "note": "sha256 / blake2b-512 are oracles with an output-length hypothesis; base64.b32encode/b32decode, binascii hex, "
+            "int(.., 2) and cbor2's integer coding are modelled from RFC 4648 / RFC 8949 / the CPython sources and tied "
+            "by correspondence only. Known finding: the CBOR decoder rejects the encoder's output for the empty array.",
+    "technique": "Coq proof (induction over radix digit lists, loop invariants for the bit regrouping, vm_compute sweeps "
+                 "lifted with forallb_forall for tables and the SS58 format packing) + generated-constant obligations + "
+                 "extracted-model differential run",
     "ref": "7/C11",
 }
 
-RULE = ("Byte strings: exhaustive for lengths 0..2 (thorough; quick: 0..1 plus a sample of length 2), random "
-        "lengths up to 200 with leading-zero runs; strings: random over the alphabet, mutated encodings, "
-        "foreign characters.")
-TRUSTED = ["sha256 is an oracle (hashlib); Base58Check theorems assume only |sha256 x| = 32"]
-ASSUMPTIONS = ["hash output length 32 bytes"]
+RULE = ("Per codec: byte strings exhaustively for lengths 0..1 (quick) / 0..2 (thorough) through every encoder; decoders on "
+        "all alphabet strings of length 0..2 and every single character 0..255 in the decisive position; every length "
+        "mod block size (Monero 1..8(+8k), Base32 0..15, ConvertBits 5-bit strings of length 0..2 exhaustively); all "
+        "integers +-1/+-2 around every threshold (256^k, 2^6/2^14/2^30/2^536, CBOR 24/2^8/2^16/2^32/2^64, SS58 63/64/16383); "
+        "all SS58 formats -2..16389 through Encode; random inputs up to 200 bytes with leading-zero runs; a separate "
+        "malformed stream (substitute, foreign/Unicode look-alike character, insert, delete, truncate, bad checksum, "
+        "wrong length, non-canonical padding/prefix).")
+TRUSTED = ["sha256 and blake2b-512 are oracles answered by hashlib; theorems assume only their output length (32 / 64) "
+           "and that they return bytes",
+           "CPython's base64.b32encode/b32decode, binascii.hexlify/unhexlify, int(text, 2), str.translate/maketrans/"
+           "rstrip/zfill and cbor2.dumps/loads for integers are represented by hand-written models of their documented "
+           "behaviour (RFC 4648, RFC 8949, CPython 3.12 sources); tied by the correspondence run only",
+           "SCALE decoders are model decoders (the library has encoders only)"]
+ASSUMPTIONS = ["sha256 output length 32 bytes", "blake2b-512 output length 64 bytes"]
+BUDGET = {"quick": 150, "thorough": 1500}
 
 
 def rt_b58(a):
@@ -696,9 +712,9 @@ def gen_ss58(ctx):
     for fmt in range(-2, 16390):
         ctx.run("ss58_encode", [fixed, fmt], "allformats")
     ctx.note_exhaustive("SS58: all formats -2..16389 through Encode (with the round trip as direct check); Decode on all "
-                        "formats in thorough, every 5th plus all boundaries in quick")
+                        "formats in thorough, every 16th plus all boundaries in quick")
     for fmt in range(0, 16384):
-        if not ctx.quick or fmt % 5 == 0 or fmt in (45, 46, 47, 48, 62, 63, 64, 65, 127, 128, 255, 256, 257, 16382, 16383):
+        if not ctx.quick or fmt % 16 == 0 or fmt in (45, 46, 47, 48, 62, 63, 64, 65, 127, 128, 255, 256, 257, 16382, 16383):
             if fmt not in (46, 47):
                 ctx.run("ss58_decode", [ss58_ref(fixed, fmt)], "allformats")
     # data lengths
